@@ -1,0 +1,18 @@
+//go:build verif
+
+package ufs
+
+import p9p "github.com/frobnitzem/go-p9p"
+
+// Verification hooks (build tag "verif" only; add-only, no behaviour change).
+
+// VerifFullPath runs fServer.fullPath of a server made by NewServer.
+func VerifFullPath(fs p9p.FileSys, p string) (string, error) {
+	return fs.(*fServer).fullPath(p)
+}
+
+// VerifRefFullPath runs FileRef.fullPath for a reference with the given
+// internal path.
+func VerifRefFullPath(fs p9p.FileSys, p string) string {
+	return FileRef{fs: fs.(*fServer), Path: p}.fullPath()
+}
